@@ -525,6 +525,48 @@ pub fn run(cfg: &Config) -> i32 {
             }
         }
     }
+    // generated bases (independent layout table): the maximal message and one message per documented
+    // option of every type, independent of the seed, plus seeded random shapes; each also with its
+    // single mutations (whatever is accepted must be stable)
+    {
+        use crate::spec::layout::{self, Gen, GenOptions};
+        use crate::spec::{self, Canon};
+        for lay in &layout::layouts() {
+            let mut shapes: Vec<(u64, u64, GenOptions, Option<(String, String)>)> = Vec::new();
+            shapes.push((0, 0, GenOptions { optional_per_mille: 1000, max_repeat: 2, max_seq: 2, maximal: true, minimal: false }, None));
+            for (k, (num, opt)) in layout::option_pairs(lay).into_iter().enumerate() {
+                shapes.push((0, 1 + k as u64, GenOptions { optional_per_mille: 1000, max_repeat: 1, max_seq: 1, maximal: true, minimal: false }, Some((num, opt))));
+            }
+            for vi in 0..cfg.tier.pick(3u64, 30u64) {
+                shapes.push((cfg.seed, 100 + vi, GenOptions { optional_per_mille: [500, 800, 250][(vi % 3) as usize], max_repeat: 2, max_seq: [1, 2, 4][(vi % 3) as usize], maximal: false, minimal: false }, None));
+            }
+            for (sd, vi, opt, force) in shapes {
+                let mut rr = Rng::new(sd, &format!("c02-gen:{}", lay.mt), vi);
+                let force_include = force.as_ref().map(|f| f.0.clone());
+                let mut g = Gen { r: &mut rr, counter: vi as usize * 60, mt: lay.mt, opt, force_option: force, force_include };
+                let gf = g.message(lay);
+                let mut base: Vec<tok::Token> = Vec::new();
+                let mut ok = true;
+                for f in &gf {
+                    match spec::canonical(&f.tag, &f.content) {
+                        Canon::Ok(c) => base.push(tok::Token { tag: f.tag.clone(), content: c }),
+                        _ => ok = false,
+                    }
+                }
+                if !ok {
+                    continue;
+                }
+                if lay.mt == "204" && base.len() >= 2 && base[1].tag == "19" {
+                    base.swap(0, 1);
+                }
+                cases.push(("block4/generated".into(), Case::Block4 { mt: lay.mt.to_string(), text: tok::render(&base, false, false) }));
+                let mut r2 = Rng::new(sd, &format!("c02-gen-mut:{}", lay.mt), vi);
+                for m in mutate::single_mutations(&base, &pool, &mut r2, false) {
+                    cases.push((format!("block4/generated-mutant:{}", m.kind), Case::Block4 { mt: lay.mt.to_string(), text: tok::render(&m.fields, false, false) }));
+                }
+            }
+        }
+    }
     // sparse envelopes: a block 3 / block 5 that is present but empty, or carries a single tag only
     // (present-but-empty and absent are different parse results and must stay apart over a round trip)
     {
